@@ -7,11 +7,21 @@ import (
 	"verifharness/core"
 )
 
+// AdversarialNames, when set, are used for `typename:` values half of the time (names of
+// fragments, of other operations' response types, of auto-generated types ...).
+var AdversarialNames []string
+
 // Decorate attaches `# @genqlient(...)` comment directives to random nodes of the document.
 // Mostly placements that genqlient accepts; with probability pBad a placement it must reject.
 func Decorate(r *core.Rng, s *Schema, d *Doc, p float64, pBad float64) {
 	k := 0
-	uniq := func(prefix string) string { k++; return fmt.Sprintf("%s%d", prefix, k) }
+	uniq := func(prefix string) string {
+		k++
+		if len(AdversarialNames) > 0 && strings.HasSuffix(prefix, "Ty") && r.Chance(0.5) {
+			return AdversarialNames[r.Intn(len(AdversarialNames))]
+		}
+		return fmt.Sprintf("%s%d", prefix, k)
+	}
 	var decorateSels func(sels []*Sel)
 	decorateSels = func(sels []*Sel) {
 		for _, sel := range sels {
@@ -119,8 +129,9 @@ func Decorate(r *core.Rng, s *Schema, d *Doc, p float64, pBad float64) {
 		}
 		for len(forTargets) > 0 && r.Chance(p*0.8) {
 			t := forTargets[r.Intn(len(forTargets))]
+			// (no `alias` through `for`: a field selected twice under two GraphQL aliases would get one Go name twice)
 			opt := []string{"pointer: true", "pointer: false", "omitempty: true", "omitempty: false", fmt.Sprintf("typename: %q", uniq("ForTy")),
-				fmt.Sprintf("alias: %q", uniq("ForAl")), "bind: \"example.com/b.FT\""}[r.Intn(7)]
+				"pointer: true", "bind: \"example.com/b.FT\""}[r.Intn(7)]
 			if strings.HasPrefix(opt, "typename") && forCustom[t] {
 				opt = "pointer: true"
 			}
